@@ -555,6 +555,17 @@ func hashPick(parts ...any) uint32 {
 // EnvStep mutates the store the way the rest of the cluster would between two cycles.
 func EnvStep(s *Store, sc *CycleScript, cycle int, rec *CycleRecord) {
 	ctx := context.Background()
+	// nodes leaving the cluster: the node object and the pods bound to it disappear, BindRequests naming it stay
+	for _, dn := range sc.DeleteNodes {
+		if err := s.Kube.Tracker().Delete(schema.GroupVersionResource{Version: "v1", Resource: "nodes"}, "", dn); err != nil {
+			continue
+		}
+		for _, p := range s.Pods() {
+			if p.Spec.NodeName == dn {
+				_ = s.Kube.Tracker().Delete(podGVR, p.Namespace, p.Name)
+			}
+		}
+	}
 	// kubelet: terminating pods go away after their linger time
 	for _, p := range s.Pods() {
 		if p.DeletionTimestamp == nil {
